@@ -196,6 +196,92 @@ def long_strings():
     return out
 
 
+UNIVERSAL_NUMBER = {'BOOLEAN': 1, 'INTEGER': 2, 'BITSTRING': 3, 'OCTETSTRING': 4, 'NULL': 5, 'OID': 6, 'ObjectDescriptor': 7,
+                    'REAL': 9, 'ENUMERATED': 10, 'UTF8String': 12, 'SEQUENCE': 16, 'SEQUENCEOF': 16, 'SET': 17, 'SETOF': 17,
+                    'NumericString': 18, 'PrintableString': 19, 'TeletexString': 20, 'VideotexString': 21, 'IA5String': 22,
+                    'UTCTime': 23, 'GeneralizedTime': 24, 'GraphicString': 25, 'VisibleString': 26, 'GeneralString': 27,
+                    'UniversalString': 28, 'BMPString': 30}
+RANDOM_LEAVES = ['BOOLEAN', 'INTEGER', 'ENUMERATED', 'BITSTRING', 'OCTETSTRING', 'NULL', 'OID', 'REAL', 'UTF8String',
+                 'IA5String', 'BMPString', 'GeneralizedTime', 'PrintableString']
+
+
+def outer_tag(t):
+    if t['tags']:
+        m, c, n = t['tags'][-1]
+        return (c, n)
+    return (0, UNIVERSAL_NUMBER[t['k']])
+
+
+def random_type(rng, depth, top=True):
+    """a legal ASN.1 type: members of one constructed type carry pairwise distinct outermost tags (stronger than X.680
+    requires for SEQUENCE, exactly what it requires for SET and CHOICE); CHOICE members are explicitly tagged"""
+    kinds = list(RANDOM_LEAVES) * 2
+    if depth > 0:
+        kinds += ['SEQUENCE', 'SET', 'SEQUENCEOF', 'SETOF', 'CHOICE'] * 5
+    k = rng.choice(kinds)
+    ts = []
+    if rng.random() < 0.25 and k != 'CHOICE':
+        ts = [(rng.choice('IE'), rng.choice((CTX, APP, PRIV)), rng.choice((0, 1, 30, 31, 127, 128, 16384)))]
+    if k in RANDOM_LEAVES:
+        return T(k, ts)
+    if k in ('SEQUENCEOF', 'SETOF'):
+        elem = random_type(rng, depth - 1, top=False)
+        if elem['k'] == 'CHOICE' and not elem['tags']:
+            elem = dict(elem, tags=[('E', CTX, 0)])
+        return T(k, ts, elem=elem)
+    n = rng.randrange(0 if k != 'CHOICE' else 1, 5)
+    fields, used = [], set()
+    for i in range(n):
+        ft = random_type(rng, depth - 1, top=False)
+        if ft['k'] == 'CHOICE':
+            ft = dict(ft, tags=list(ft['tags']) + [('E', CTX, i)])
+        elif outer_tag(ft) in used or rng.random() < 0.4:
+            ft = dict(ft, tags=list(ft['tags']) + [(rng.choice('IE'), CTX, i)])
+        if outer_tag(ft) in used:
+            ft = dict(ft, tags=list(ft['tags']) + [('E', PRIV, 100 + i)])
+        used.add(outer_tag(ft))
+        mode = 'req'
+        if k != 'CHOICE':
+            r = rng.random()
+            if r < 0.3:
+                mode = 'opt'
+            elif r < 0.45 and ft['k'] in RANDOM_LEAVES:
+                mode = ('default', rng.choice(leaf_values(ft['k'])[:6]))
+        fields.append(('f%d' % i, ft, mode))
+    return T(k, ts, fields=fields)
+
+
+def random_value(rng, t):
+    k = t['k']
+    if k in RANDOM_LEAVES:
+        return rng.choice(leaf_values(k)[:10])
+    if k in ('SEQUENCEOF', 'SETOF'):
+        return [random_value(rng, t['elem']) for _ in range(rng.randrange(0, 4))]
+    if k == 'CHOICE':
+        n, ft, m = rng.choice(t['fields'])
+        return (n, random_value(rng, ft))
+    v = {}
+    for n, ft, m in t['fields']:
+        if m == 'req' or rng.random() < 0.5:
+            if isinstance(m, tuple) and rng.random() < 0.5:
+                v[n] = m[1]
+            else:
+                v[n] = random_value(rng, ft)
+    return v
+
+
+def random_pairs(seed, n, depth=3):
+    rng = random.Random(seed * 7919 + 13)
+    out = []
+    while len(out) < n:
+        t = random_type(rng, depth)
+        if t['k'] in RANDOM_LEAVES:
+            continue
+        for _ in range(2):
+            out.append((t, random_value(rng, t)))
+    return out
+
+
 def universe(seed=0, tier='quick', include_long=False):
     """-> list of (T, v).  quick samples the leaf product; thorough takes all of it."""
     rng = random.Random(seed)
@@ -206,6 +292,8 @@ def universe(seed=0, tier='quick', include_long=False):
         rng.shuffle(tagged)
         lv = base + tagged[:400]
     out = lv + records() + collections() + choices() + nested()
+    # generated types of depth <= 3 with random members, tags, OPTIONAL/DEFAULT modes and values
+    out += random_pairs(seed, 60 if tier == 'quick' else 3000)
     if include_long:
         out += long_strings()
     return out
